@@ -293,7 +293,7 @@ func (nh *NodeHost) startReplica(initialMembers map[uint64]Target, join bool, di
 		r.disk = disk(cfg.ShardID, cfg.ReplicaID)
 		var idx uint64
 		var err error
-		if pv := guard(func() { idx, err = r.disk.Open(r.stopc) }); pv != nil || err != nil {
+		if pv := u.guard(func() { idx, err = r.disk.Open(r.stopc) }); pv != nil || err != nil {
 			r.running = false
 			r.host = nil
 			u.fatals = append(u.fatals, fmt.Sprintf("%s replica %d: Open failed: %v %v", key, r.ID, err, pv))
@@ -322,7 +322,7 @@ func (nh *NodeHost) startReplica(initialMembers map[uint64]Target, join bool, di
 		if r.snap != nil {
 			var err error
 			data := append([]byte(nil), r.snap.data...)
-			if pv := guard(func() { err = r.conc.RecoverFromSnapshot(bytes.NewReader(data), nil, r.stopc) }); pv != nil || err != nil {
+			if pv := u.guard(func() { err = r.conc.RecoverFromSnapshot(bytes.NewReader(data), nil, r.stopc) }); pv != nil || err != nil {
 				u.fatal(r, "RecoverFromSnapshot at start failed", fmt.Sprint(err, pv))
 				return fmt.Errorf("simdragonboat: recover failed: %v %v", err, pv)
 			}
@@ -621,6 +621,14 @@ func (nh *NodeHost) StaleRead(shardID uint64, query interface{}) (interface{}, e
 	}
 	if g := u.Gate; g != nil {
 		g("staleread", nh.addr, shardID, query)
+	}
+	if u.nested() {
+		// called from inside a state machine callback the simulator itself is running: the lock is ours
+		r, err := nh.local(shardID)
+		if err != nil {
+			return nil, err
+		}
+		return lookup(r, query)
 	}
 	u.mu.Lock()
 	defer u.mu.Unlock()
